@@ -116,7 +116,7 @@ func (c *Cache) Get(key string) (interface{}, bool) {
 	}
 
 	// Check for expiration.
-	if time.Now().After(item.ExpiresAt) {
+	if !time.Now().Before(item.ExpiresAt) {
 		c.removeItem(key)
 		return nil, false
 	}
@@ -150,7 +150,7 @@ func (c *Cache) Cleanup() {
 	now := time.Now()
 	for key, item := range c.items {
 		// Remove items that are expired or within 10% of expiration
-		if now.After(item.ExpiresAt) || now.Add(time.Duration(float64(item.ExpiresAt.Sub(now))*0.1)).After(item.ExpiresAt) {
+		if !now.Before(item.ExpiresAt) || now.Add(time.Duration(float64(item.ExpiresAt.Sub(now))*0.1)).After(item.ExpiresAt) {
 			c.removeItem(key)
 		}
 	}
@@ -169,7 +169,7 @@ func (c *Cache) evictOldest() {
 	for elem != nil {
 		entry := elem.Value.(lruEntry)
 		if item, exists := c.items[entry.key]; exists {
-			if now.After(item.ExpiresAt) {
+			if !now.Before(item.ExpiresAt) {
 				c.removeItem(entry.key)
 				return
 			}
